@@ -17,7 +17,7 @@ func init() { register(c08{}) }
 
 func (c08) ID() string { return "C08" }
 func (c08) Cases(t fw.Tier) int {
-	return tierN(t, 4000, 200000)
+	return tierN(t, 30000, 800000)
 }
 func (c08) Rule() string {
 	return "each case generates one schema document (both drafts; grouped keyword generator with $defs/$ref, unevaluated*, or a small schema focused on representation-sensitive keywords: " +
